@@ -33,6 +33,21 @@ import Kskm.KsrPolicy
 import Kskm.SkrValidate
 namespace Kskm.Xml
 
+/-- Behaviour switches of the glue, tabulated from the code by harness/extract_tables.py: whether a
+    repeated element that occurs exactly once (and is therefore stored as a dict, not a list) is wrapped
+    into a one-element list before it is iterated.  `Key`, `Signature`, `SignatureAlgorithm` and
+    `RequestBundle` always were; `Signer` (finding F11) and `ResponseBundle` (finding F12) were not on the
+    pinned tree. -/
+structure GlueSwitches where
+  wrapsSingleSigner : Bool
+  wrapsSingleResponseBundle : Bool
+  deriving DecidableEq, Repr
+
+/-- the glue of /repo's working tree -/
+def pyGlueSwitches : GlueSwitches :=
+  { wrapsSingleSigner := KskmGen.wrapsSingleSigner
+    wrapsSingleResponseBundle := KskmGen.wrapsSingleResponseBundle }
+
 /-! ### Python's dynamic operations on the parsed tree -/
 
 /-- `v[k]` -/
@@ -210,12 +225,13 @@ def signaturesOf (v : XVal) : Res (List Signature) := do
   let l ← v.asList.mapM signatureOf
   pure (dedup l)
 
-/-- `signers_from_list(signers)`: NO single-vs-list handling (finding F11): a single `<Signer …/>` arrives
-    as the dict `{"attrs": …, "value": ""}` and the loop runs over its KEYS. -/
-def signersOf (v : XVal) : Res (Option (List (Option String))) :=
+/-- `signers_from_list(signers)`.  On the pinned tree there is NO single-vs-list handling (finding
+    F11): a single `<Signer …/>` arrives as the dict `{"attrs": …, "value": ""}` and the loop runs over
+    its KEYS.  The repaired function wraps a non-list after the emptiness test. -/
+def signersOf (gs : GlueSwitches) (v : XVal) : Res (Option (List (Option String))) :=
   if !v.truthy then pure none
   else do
-    let l ← v.iter.mapM fun this => do
+    let l ← (if gs.wrapsSingleSigner then v.asList else v.iter).mapM fun this => do
       let s ← strictStr (← (← this.getItem "attrs").getItem "keyIdentifier")
       pure (some s)
     pure (some (dedup l))
@@ -225,7 +241,7 @@ def signersOf (v : XVal) : Res (Option (List (Option String))) :=
 def mandatoryBundleParts : List String := ["Inception", "Expiration", "Key", "Signature"]
 
 /-- one round of the loop of `request_bundles_from_list_of_dicts` -/
-def requestBundleOf (bundle : XVal) : Res Bundle := do
+def requestBundleOf (gs : GlueSwitches) (bundle : XVal) : Res Bundle := do
   let id? ← (← bundle.getItem "attrs").get? "id"
   match id? with
   | none => err .value                              -- "Bundle missing ID"
@@ -238,7 +254,7 @@ def requestBundleOf (bundle : XVal) : Res Bundle := do
     let expiration ← datetimeOf (← (← bundle.getItem "value").getItem "Expiration")
     let keys ← keysOf (← (← bundle.getItem "value").getItem "Key")
     let signatures ← signaturesOf (← (← bundle.getItem "value").getItem "Signature")
-    let signers ← signersOf ((← (← bundle.getItem "value").get? "Signer").getD (.list []))
+    let signers ← signersOf gs ((← (← bundle.getItem "value").get? "Signer").getD (.list []))
     let id ← strictStr idv
     pure { id, inception, expiration, keys, signatures, signers }
 
@@ -247,8 +263,8 @@ def sortByExpiration (l : List Bundle) : List Bundle :=
   l.mergeSort (fun a b => decide (a.expiration ≤ b.expiration))
 
 /-- `request_bundles_from_list_of_dicts(bundles)` -/
-def requestBundlesOf (bundles : List XVal) : Res (List Bundle) := do
-  let l ← bundles.mapM requestBundleOf
+def requestBundlesOf (gs : GlueSwitches) (bundles : List XVal) : Res (List Bundle) := do
+  let l ← bundles.mapM (requestBundleOf gs)
   pure (sortByExpiration l)
 
 /-- the optional `timestamp` — looked for among the attributes of `KSR` (finding F13) -/
@@ -259,9 +275,9 @@ def timestampOf (attrs : XVal) : Res (Option Int) :=
   else pure none
 
 /-- `request_from_xml` after `parse_ksr` -/
-def requestFromDict (data : XVal) : Res Request := do
+def requestFromDict (gs : GlueSwitches) (data : XVal) : Res Request := do
   let bl := (← (← (← (← data.getItem "KSR").getItem "value").getItem "Request").get? "RequestBundle").getD (.list [])
-  let bundles ← requestBundlesOf bl.asList
+  let bundles ← requestBundlesOf gs bl.asList
   let zskPolicy ← signaturePolicyOf
     (← (← (← (← (← data.getItem "KSR").getItem "value").getItem "Request").getItem "RequestPolicy").getItem "ZSK")
   let attrs ← (← data.getItem "KSR").getItem "attrs"
@@ -285,13 +301,15 @@ def responseBundleOf (bundle : XVal) : Res Bundle := do
   let id ← strictStr idv
   pure { id, inception, expiration, keys, signatures, signers := none }
 
-/-- `responsebundles_from_list_of_dicts(bundles)`: NO single-vs-list handling (finding F12): the list
-    comprehension runs over whatever it is given — the KEYS of a single bundle's dict. -/
-def responseBundlesOf (v : XVal) : Res (List Bundle) := v.iter.mapM responseBundleOf
+/-- `responsebundles_from_list_of_dicts(…)` as `response_from_xml` calls it.  On the pinned tree there is
+    NO single-vs-list handling (finding F12): the list comprehension runs over whatever it is given — the
+    KEYS of a single bundle's dict.  The repaired `response_from_xml` wraps a non-list first. -/
+def responseBundlesOf (gs : GlueSwitches) (v : XVal) : Res (List Bundle) :=
+  (if gs.wrapsSingleResponseBundle then v.asList else v.iter).mapM responseBundleOf
 
 /-- `response_from_xml` after `parse_ksr` -/
-def responseFromDict (data : XVal) : Res Response := do
-  let bundles ← responseBundlesOf
+def responseFromDict (gs : GlueSwitches) (data : XVal) : Res Response := do
+  let bundles ← responseBundlesOf gs
     (← (← (← (← data.getItem "KSR").getItem "value").getItem "Response").getItem "ResponseBundle")
   let kskPolicy ← signaturePolicyOf
     (← (← (← (← (← data.getItem "KSR").getItem "value").getItem "Response").getItem "ResponsePolicy").getItem "KSK")
@@ -321,12 +339,12 @@ def fromXmlWith {α} (cls : Classes) (sw : Switches) (glue : XVal → Res α) (x
   | .outOfFuel => .hang
 
 /-- `request_from_xml(xml)` -/
-def requestFromXmlL (cls : Classes) (sw : Switches) (xml : List Char) : Load Request :=
-  fromXmlWith cls sw requestFromDict xml
+def requestFromXmlL (cls : Classes) (sw : Switches) (gs : GlueSwitches) (xml : List Char) : Load Request :=
+  fromXmlWith cls sw (requestFromDict gs) xml
 
 /-- `response_from_xml(xml)` -/
-def responseFromXmlL (cls : Classes) (sw : Switches) (xml : List Char) : Load Response :=
-  fromXmlWith cls sw responseFromDict xml
+def responseFromXmlL (cls : Classes) (sw : Switches) (gs : GlueSwitches) (xml : List Char) : Load Response :=
+  fromXmlWith cls sw (responseFromDict gs) xml
 
 def Load.toRes {α} : Load α → Res α
   | .done r => r
@@ -335,10 +353,10 @@ def Load.toRes {α} : Load α → Res α
 /-- `request_from_xml` of the tree in /repo's working tree under the running Python's character
     classes.  A document on which the attribute loop does not terminate (F1) answers `unsupported`
     here; use `requestFromXmlL` to see the hang. -/
-def requestFromXml (s : String) : Res Request := (requestFromXmlL pyClasses pySwitches s.toList).toRes
+def requestFromXml (s : String) : Res Request := (requestFromXmlL pyClasses pySwitches pyGlueSwitches s.toList).toRes
 
 /-- `response_from_xml`, likewise -/
-def responseFromXml (s : String) : Res Response := (responseFromXmlL pyClasses pySwitches s.toList).toRes
+def responseFromXml (s : String) : Res Response := (responseFromXmlL pyClasses pySwitches pyGlueSwitches s.toList).toRes
 
 /-! ### `load_ksr` / `load_skr`: size gate, read, decode, parse, validate -/
 
@@ -355,7 +373,7 @@ structure Loaded (α : Type) where
   readCalled : Bool
 
 /-- `load_ksr(filename, policy, raise_original)` -/
-def loadKsr (cls : Classes) (sw : Switches) (verify : Verifier) (now : Int) (f : FileOracle)
+def loadKsr (cls : Classes) (sw : Switches) (gs : GlueSwitches) (verify : Verifier) (now : Int) (f : FileOracle)
     (pol : RequestPolicy) (raiseOriginal : Bool := false) : Loaded Request :=
   if f.statSize > KskmGen.maxKsrSize then { result := .done (err .runtime), readCalled := false }
   else
@@ -364,7 +382,7 @@ def loadKsr (cls : Classes) (sw : Switches) (verify : Verifier) (now : Int) (f :
       match f.decode bytes with
       | none => .done (err .unicode)
       | some xml =>
-        match requestFromXmlL cls sw xml with
+        match requestFromXmlL cls sw gs xml with
         | .hang => .hang
         | .done (.error e) => .done (.error e)
         | .done (.ok req) =>
@@ -375,7 +393,8 @@ def loadKsr (cls : Classes) (sw : Switches) (verify : Verifier) (now : Int) (f :
     { result, readCalled := true }
 
 /-- `load_skr(filename, policy)` -/
-def loadSkr (cls : Classes) (sw : Switches) (verify : Verifier) (f : FileOracle) (pol : ResponsePolicy) :
+def loadSkr (cls : Classes) (sw : Switches) (gs : GlueSwitches) (verify : Verifier) (f : FileOracle)
+    (pol : ResponsePolicy) :
     Loaded Response :=
   if f.statSize > KskmGen.maxSkrSize then { result := .done (err .runtime), readCalled := false }
   else
@@ -384,7 +403,7 @@ def loadSkr (cls : Classes) (sw : Switches) (verify : Verifier) (f : FileOracle)
       match f.decode bytes with
       | none => .done (err .unicode)
       | some xml =>
-        match responseFromXmlL cls sw xml with
+        match responseFromXmlL cls sw gs xml with
         | .hang => .hang
         | .done (.error e) => .done (.error e)
         | .done (.ok resp) =>
